@@ -21,7 +21,7 @@ CFG = {
     "technique": "Coq proof (frame invariant over an append-only heap, induction over histories) + vm_compute correspondence "
                  "check with re-reading of every live mesh after every step",
     "design_ref": "DESIGN.md §4 C01, §3.3",
-    "n_quick": 240, "n_thorough": 2000,
+    "n_quick": 200, "n_thorough": 2000,
     "rule": "branching derivation histories of 8-16 (thorough: up to 36) public mesh operations over a pool of live "
             "modeling.Mesh values: constructors (NewMesh with caller slices incl. spare capacity, EmptyMesh, "
             "primitives.Cube.Welded sharing the package-level index array), Append, SetFloatNAttribute/SetFloatNData/"
